@@ -53,8 +53,8 @@ result). None of them is committed in `/repo`; to run a check against one:
 `git -C /repo apply /verif/seeded/<id>/patch.diff; ./check <Cxx> quick; git -C /repo checkout -- .`
 (or, without touching `/repo`, `PYVC_REPO_SRC=<worktree>/src ./check <Cxx> quick`).
 `m1`/`m2` are the first round (one agent per property, all 20 properties), `m3`/`m4` a
-second round (again two per property, all 20 properties) on the tree with all `fix:`
-commits.
+second round and `m5`/`m6` a third round (again two per property, all 20 properties) on
+the tree with the `fix:` commits of the time.
 The raw logs of the confirmation runs are in `seeded/logs/`.
 
 {det} of {n} confirmed changes are reported by the quick tier of the check of their own
